@@ -1186,3 +1186,17 @@ package variants
 //@   ensures[C03] err == nil ==> vinv(result) && (newType != Object ==> result.typ == newType)
 //@   assigns nothing
 //@   nopanic
+
+// ---- the operation managers are built from fresh objects only --------------------------------------------------
+//@ func InheritAbstractVariantOperations
+//@   ensures fresh(result) && result != nil && result.Overrides == overrides
+//@   assigns nothing
+//@   nopanic
+//@ func NewTypeUnsafeVariantOperations
+//@   ensures fresh(result) && result != nil && result.AbstractVariantOperations != nil
+//@   assigns nothing
+//@   nopanic
+//@ func NewTypeSafeVariantOperations
+//@   ensures fresh(result) && result != nil && result.AbstractVariantOperations != nil
+//@   assigns nothing
+//@   nopanic
